@@ -96,6 +96,7 @@ class EmuT3T(object):
         nmaxb = int.from_bytes(attr[3:5], "big")
         nblocks = nmaxb if nblocks is None else nblocks
         self.mem = bytearray(attr) + bytearray(data) + bytearray([fill]) * max(0, nblocks * 16 - len(data))
+        self.nblocks, self.gen = nblocks, None
         self.oth = bytearray(other)
         self.idm = bytes.fromhex("02FE0A0B0C0D0E0F")
         self.pmm = bytes.fromhex("00FFFFFFFFFFFFFF")
@@ -137,12 +138,11 @@ class EmuT3T(object):
     def sensf_res(self):
         return b"\x01" + self.idm + self.pmm + b"\x12\xFC"
 
-    @property
-    def blocks(self):
-        return [self.mem[i:i + 16] for i in range(0, len(self.mem), 16)]
+    def attr_block(self):
+        return bytes(self.mem[:16])
 
-    def memory(self):
-        return bytes(self.mem)
+    def image(self):
+        return [[b, list(self.mem[b * 16:b * 16 + 16])] for b in range(1, self.nblocks + 1)]
 
     def other_memory(self):
         return bytes(self.oth)
@@ -227,12 +227,24 @@ def fresh_view(tagobj):
 
 def t3_build(case):
     L = case["layout"]
-    old = rnd_bytes(case["seed"] * 7 + 1, L["oldlen"])
-    attr = attr_bytes(L.get("ver", 0x10), L["nbr"], L["nbw"], L["nmaxb"], L.get("writef", 0),
-                      L.get("rwflag", 1), L["oldlen"], rfu=L.get("rfu", 0))
-    nblocks = L["nmaxb"] + L.get("extra", 0)
-    fill = rnd_bytes(case["seed"] * 7 + 2, nblocks * 16 - len(old)) if L.get("dirty", True) else bytes(nblocks * 16 - len(old))
+    oldlen = L.get("oldlen", 0)
+    attr = bytearray(attr_bytes(L.get("ver", 0x10), L["nbr"], L["nbw"], L["nmaxb"], L.get("writef", 0),
+                                L.get("rwflag", 1), L.get("ln", oldlen), rfu=L.get("rfu", 0)))
+    ck = L.get("ck", "ok")          # checksum variants of the attribute block
+    if ck == "plus1":
+        attr[14:16] = ((int.from_bytes(attr[14:16], "big") + 1) & 0xFFFF).to_bytes(2, "big")
+    elif ck == "swapped":
+        attr[14], attr[15] = attr[15], attr[14]
+    elif ck == "low-only":
+        attr[14] = 0
+    nblocks = L.get("nblocks", L["nmaxb"] + L.get("extra", 0))
     other = rnd_bytes(case["seed"] * 7 + 3, 32)
+    if L.get("lazy"):               # data blocks generated on demand (tags with up to 65535 blocks)
+        nbw_phys = min(L["nbw"], 12 if nblocks > 255 else 13)
+        return SimT3T(attr, nblocks=nblocks, other=other, cut_after=case.get("cut"), gen=L.get("gen", 5),
+                      nbr_phys=max(1, min(L["nbr"], 15)), nbw_phys=nbw_phys)
+    old = rnd_bytes(case["seed"] * 7 + 1, oldlen)
+    fill = rnd_bytes(case["seed"] * 7 + 2, nblocks * 16 - len(old)) if L.get("dirty", True) else bytes(nblocks * 16 - len(old))
     cls = EmuT3T if case["kind"] == "emu" else SimT3T
     t = cls(attr, data=old + fill, nblocks=nblocks, other=other, cut_after=case.get("cut"))
     return t
@@ -247,15 +259,16 @@ def t3_activate(t):
 
 
 def t3_image(t):
-    mem = t.memory()
-    return dict(attr=parse_attr(mem[:16]), mem=list(mem[16:]), oth=list(t.other_memory()))
+    """attribute block as raw bytes (parsed by Trace_T3Tag!ParseAttr), explicit data blocks, other service"""
+    return dict(attr=list(t.attr_block()), blocks=t.image(), oth=list(t.other_memory()))
 
 
 def run_t3(case):
     """Execute one case against the real code, return the trace record."""
     t = t3_build(case)
     img0 = t3_image(t)
-    init = dict(attr=img0["attr"], mem=img0["mem"], oth=img0["oth"],
+    init = dict(attr=img0["attr"], nb=t.nblocks, gen=-1 if t.gen is None else t.gen,
+                blocks=[d for b, d in img0["blocks"]], oth=img0["oth"],
                 phys=dict(nbr=t.nbr_phys, nbw=t.nbw_phys))
     ev = []
     op = case["op"]
@@ -294,10 +307,12 @@ def run_t3(case):
         ev.append(dict(a="Ret", res=res, cap=cap))
     ncmds = len(t.log)
     t.power_on()
-    k, v = fresh_view(t3_activate(t))
+    fresh = t3_activate(t)
+    k, v = fresh_view(fresh)
+    cap, wr = (fresh.ndef.capacity, bool(fresh.ndef.is_writeable)) if k in ("ndef", "notreadable") else (-1, False)
     img = t3_image(t)
-    ev.append(dict(a="View", k=k, v=v, reads=[list(r) for r in t.reads], attr=img["attr"], mem=img["mem"],
-                   oth=img["oth"]))
+    ev.append(dict(a="View", k=k, v=v, cap=cap, wr=wr, reads=[list(r) for r in t.reads], attr=img["attr"],
+                   blocks=img["blocks"], oth=img["oth"]))
     return dict(id=case["id"], init=init, ev=ev), dict(ncmds=ncmds, breaches=list(t.breaches))
 
 
@@ -461,6 +476,36 @@ T4_C01_ONLY = [
 ]
 
 
+T3_HUGE = dict(nbr=15, nbw=12, nmaxb=4200, lazy=True, gen=9, ln=100)      # data area > 64 KiB
+
+
+def t3_attr_layouts(full):
+    """Attribute information blocks with every field at its extremes (READ path, tags whose blocks are
+    generated lazily): Ver, Nbr, Nbw, Nmaxb (16 bit), RFU, WriteF, RWFlag, Ln (24 bit), checksum."""
+    out = []
+    big = dict(nbr=15, nbw=12, nmaxb=0xFFFF, lazy=True, gen=3)
+    lns = [0x010000, 0x010001,                                          # readable: Ln with a non-zero high byte
+           0x0FFFF1, 0x100000, 0x7FFFFF, 0x800000, 0xFF0000, 0xFFFFFF]  # beyond Nmaxb*16: no NDEF
+    if full:
+        lns += [0x00FFFF, 0x0100FF, 0x01FFFF, 0x020000, 0x0FFFEF, 0x0FFFF0]
+    for ln in lns:
+        out.append(dict(big, ln=ln))
+    edge = [(4097, 0x10010), (4097, 0x10011), (4096, 0x10000), (4096, 0x10001)]
+    if full:
+        edge += [(4097, 0x10000), (0x1001, 0xFFFF), (0xFFFF, 0x0FFFF0)]
+    for nmaxb, ln in edge:
+        out.append(dict(nbr=12, nbw=8, nmaxb=nmaxb, lazy=True, gen=4, ln=ln))
+    small = dict(nbr=4, nbw=3, nmaxb=6, lazy=True, gen=7, ln=40)
+    for nmaxb in (0xFFFF, 0x8000, 0x7FFF, 0x0100, 0x00FF, 0x1000, 3, 2):
+        out.append(dict(small, nmaxb=nmaxb))
+    for f, vals in (("ver", (0x10, 0x1F, 0x20, 0x0F, 0xFF, 0x00)), ("nbr", (0, 1, 2, 15, 16, 255)),
+                    ("nbw", (0, 1, 13, 255)), ("rwflag", (0, 1, 2, 0xFF)), ("writef", (0, 0x0F, 1, 0xF0, 0xFF)),
+                    ("rfu", (0xFF,)), ("ck", ("plus1", "swapped", "low-only")), ("ln", (0, 1, 95, 96, 97, 0x10028))):
+        for v in vals:
+            out.append(dict(small, **{f: v}))
+    return out
+
+
 def rand_t3_layout(rnd, big=False):
     """A well-formed Type 3 Tag layout (real constants)."""
     nmaxb = rnd.choice([0, 1, 2, 3, 7, 16, 17, 33, 64]) if not big else rnd.randint(1, 64)
@@ -520,6 +565,10 @@ def gen_cases(pid, tier, seed):
                 add("t3", L, "write", mlen=m)
         for m in ([4095, 4097, 4800, 4801] if not full else t3_lengths(T3_BIG, rnd, False)):
             add("t3", T3_BIG, "write", mlen=m)
+        for L in t3_attr_layouts(full):
+            add("t3", L, "read")
+        for m in ([66000] if not full else [65535, 65536, 65537, 67199, 67200, 67201]):
+            add("t3", T3_HUGE, "write", mlen=m)          # round trip above 64 KiB (Ln needs its third byte)
         for L in EMU_LAYOUTS + re:
             add("emu", L, "read")
             for m in t3_lengths(L, rnd, full):
@@ -547,6 +596,8 @@ def gen_cases(pid, tier, seed):
                 if full:
                     ms = t3_lengths(L, rnd, False)[:-1]
                 plan += [(kind, L, m) for m in ms]
+        if full:
+            plan.append(("t3", T3_HUGE, 66000))          # Ln with three significant bytes, sampled cuts
         for L in [T4_LAYOUTS[i] for i in ((0, 1, 2, 4, 7, 8) if not full else range(0, 10))] + r4:
             cap = L["mfs"] - (L["tlv"] - 2)
             ms = uniq([0, 1, L["mlc"] - L["tlv"] + 2, L["mlc"] - L["tlv"] + 3, 2 * L["mlc"], 256, cap], 0, cap)
@@ -576,6 +627,7 @@ def gen_cases(pid, tier, seed):
         if full:
             add("t3", T3_BIG, "format", ver=0x10, wipe=0x3C)
             add("t3", T3_BIG, "write", mlen=4800)
+            add("t3", T3_HUGE, "write", mlen=67200)
         for L in [T4_LAYOUTS[i] for i in (0, 1, 2, 4, 7, 8, 10)] + (T4_LAYOUTS[3:4] + T4_LAYOUTS[5:7] if full else []) + r4:
             L = dict(L)
             L.setdefault("extra", 3)
@@ -813,7 +865,7 @@ def conformance_stage(ck, pid, tier, seed):
                 continue
             key, invs = classify(c, tr, v)
             ev = dict(tr["ev"][v[1] - 1])
-            for f in ("data", "m", "v", "mem", "ndef", "oth"):
+            for f in ("data", "m", "v", "blocks", "reads", "attr", "ndef", "oth"):
                 if f in ev and isinstance(ev[f], list) and len(ev[f]) > 24:
                     ev[f] = ev[f][:24] + ["...%d" % len(ev[f])]
             ck.violation(key, "trace %s rejected at event %d (%s): %s ; layout=%s mlen=%s cut=%s ; event=%s" % (
@@ -831,7 +883,7 @@ def conformance_stage(ck, pid, tier, seed):
         evs = []
         for e in tr["ev"][:4]:
             e = dict(e)
-            for f in ("data", "m", "v", "mem", "ndef", "oth"):
+            for f in ("data", "m", "v", "blocks", "reads", "attr", "ndef", "oth"):
                 if f in e and len(e[f]) > 8:
                     e[f] = e[f][:8] + ["...%d" % len(e[f])]
             evs.append(e)
@@ -889,7 +941,7 @@ def replay_tags34(rep, args):
     print("replay verdict:", json.dumps(v)[:1500])
     if v[0] != "ACCEPT":
         ev = dict(tr["ev"][v[1] - 1])
-        for f in ("data", "m", "v", "mem", "ndef", "oth"):
+        for f in ("data", "m", "v", "blocks", "reads", "attr", "ndef", "oth"):
             if f in ev and isinstance(ev[f], list) and len(ev[f]) > 32:
                 ev[f] = ev[f][:32] + ["...%d" % len(ev[f])]
         print("first diverging event %d: %s" % (v[1], json.dumps(ev)[:1200]))
